@@ -1,11 +1,660 @@
-//! C04 — check not built yet.
-use mc_core::Args;
-use serde_json::Value;
+//! C04 — transaction ids and signature hashes commit to exactly the data they must.
+//!
+//! Oracle 1: `txid()`, `auth_commitment()` and every `signature_hash` (shielded; every transparent
+//! input × the 6 valid hash types) equal an independent reference implementation
+//! (`c04/reference.rs`: ZIP 244, its v6 variant, ZIP 143/243, SHA-256d for v1–v4), which is first
+//! validated against the repository's published ZIP 143/243/244 vectors.
+//! Oracle 2: a commitment matrix written from the ZIPs: for every field position of every lattice
+//! transaction (and every spent coin), a single-field mutation must change exactly the digests
+//! that are defined to cover that field, and no others.
 
-pub fn replay(_kind: &str, _case: &Value) -> Result<(), String> {
-    Err("C04: check not built".into())
+pub mod real;
+pub mod reference;
+
+use crate::c03::gen::*;
+use crate::c03::pool::{fill, fill32, pool};
+use crate::c03::spec::*;
+use mc_core::{Args, Run, Tier};
+use rayon::prelude::*;
+use reference::{Coin, Signing, VALID_HASH_TYPES};
+use serde_json::{json, Value};
+use std::collections::BTreeMap;
+
+#[derive(Clone, Copy, Debug, PartialEq, Eq, Hash, PartialOrd, Ord)]
+pub enum Class {
+    /// lock_time, expiry_height
+    Header,
+    Branch,
+    Prevout(usize),
+    Sequence(usize),
+    ScriptSig(usize),
+    Output(usize),
+    /// Sapling spend cv / nullifier / rk
+    SapSpendEffect,
+    SapAnchor,
+    SapSpendProof,
+    SapSpendSig,
+    /// Sapling output cv / cmu / epk / enc_ciphertext / out_ciphertext
+    SapOutEffect,
+    SapOutProof,
+    SapVb,
+    SapBsig,
+    /// Orchard / Ironwood action cv, nf, rk, cmx, epk, ciphertexts; flags; value balance
+    OrchEffect,
+    OrchAnchor,
+    /// Orchard / Ironwood proof, spend-auth signatures, binding signature
+    OrchAuth,
+    CoinValue(usize),
+    CoinScript(usize),
 }
 
-pub fn run(_args: &Args) -> i32 {
-    mc_core::machinery_error("C04: check not built")
+#[derive(Clone, Copy, Debug, PartialEq, Eq, Hash, PartialOrd, Ord)]
+pub enum Dg {
+    Txid,
+    Auth,
+    Sig(Signing),
+}
+
+/// The commitment matrix: must a single-field mutation of class `c` change digest `d`?
+/// `vin`/`vout` are the transaction's transparent input/output counts.
+pub fn must_change(ver: Ver, c: Class, d: Dg, vin: usize, vout: usize) -> bool {
+    use Class::*;
+    let v5 = ver.is_v5plus();
+    let v6 = ver == Ver::V6;
+    match d {
+        Dg::Txid => {
+            if !v5 {
+                // SHA-256d of the whole encoding: everything that is encoded
+                return !matches!(c, Branch | CoinValue(_) | CoinScript(_));
+            }
+            match c {
+                Header | Branch | Prevout(_) | Sequence(_) | Output(_) | SapSpendEffect | SapOutEffect | SapVb | OrchEffect => true,
+                SapAnchor | OrchAnchor => !v6,
+                ScriptSig(_) | SapSpendProof | SapSpendSig | SapOutProof | SapBsig | OrchAuth | CoinValue(_) | CoinScript(_) => false,
+            }
+        }
+        Dg::Auth => match c {
+            Branch | ScriptSig(_) | SapSpendProof | SapSpendSig | SapOutProof | SapBsig | OrchAuth => true,
+            SapAnchor | OrchAnchor => v6,
+            _ => false,
+        },
+        Dg::Sig(signing) => {
+            let (index, ht) = match signing {
+                Signing::Shielded => (None, reference::SIGHASH_ALL),
+                Signing::Transparent { index, hash_type } => (Some(index), hash_type),
+            };
+            let acp = ht & 0x80 != 0;
+            let base = ht & 0x1f;
+            let own = |i: usize| index == Some(i);
+            match c {
+                Header | Branch | SapSpendEffect | SapOutEffect | SapVb => true,
+                OrchEffect => true,
+                SapAnchor | OrchAnchor => !v6,
+                // authorising data is never signed; except that ZIP 243 hashes the Sapling proofs
+                ScriptSig(_) | SapSpendSig | SapBsig | OrchAuth => false,
+                SapSpendProof | SapOutProof => !v5,
+                Prevout(i) => !acp || own(i),
+                Sequence(i) => {
+                    if v5 {
+                        // ZIP 244 S.2d: all sequences unless ANYONECANPAY; S.2g: the input's own
+                        !acp || own(i)
+                    } else {
+                        // ZIP 143/243: hashSequence only for ALL without ANYONECANPAY
+                        (!acp && base == reference::SIGHASH_ALL) || own(i)
+                    }
+                }
+                Output(k) => {
+                    if v5 && vin == 0 {
+                        return true; // no transparent inputs: the txid transparent digest is used
+                    }
+                    match base {
+                        reference::SIGHASH_NONE => index.is_none(),
+                        reference::SIGHASH_SINGLE => index.map_or(true, |i| i == k && i < vout),
+                        _ => true,
+                    }
+                }
+                CoinValue(j) | CoinScript(j) => {
+                    if v5 {
+                        // S.2b/S.2c all coins unless ANYONECANPAY; S.2g the signed input's coin
+                        vin > 0 && (!acp || own(j))
+                    } else {
+                        own(j)
+                    }
+                }
+            }
+        }
+    }
+}
+
+#[derive(Clone, Debug)]
+pub struct Digests {
+    pub map: BTreeMap<Dg, [u8; 32]>,
+}
+
+fn coins_for(n: usize) -> Vec<Coin> {
+    (0..n).map(|j| Coin { value: 10_000 + j as i64, script: fill("coin-script", j, 25) }).collect()
+}
+
+/// All digests of the real code for one transaction, plus the first disagreement with the
+/// reference implementation (oracle 1), if any. `Err` only for harness problems and panics.
+pub fn digests_both(bytes: &[u8], ext_branch: u32, coins: &[Coin]) -> Result<(Digests, Option<String>), String> {
+    let p = ref_parse(bytes, ext_branch).map_err(|e| format!("HARNESS: reference parser: {e}"))?;
+    if p.consumed != bytes.len() {
+        return Err("HARNESS: trailing bytes".into());
+    }
+    let spec = p.spec;
+    // coinbase transactions (published vectors only) have inputs but spend no coins
+    let coinbase = coins.is_empty() && spec.vin.len() == 1 && spec.vin[0].prev_hash == [0; 32] && spec.vin[0].prev_n == u32::MAX;
+    if coins.len() != spec.vin.len() && !coinbase {
+        return Err("HARNESS: one coin per input required".into());
+    }
+    let tx = real::load(bytes, ext_branch, coins).map_err(|e| format!("HARNESS: {e}"))?;
+    let mut map = BTreeMap::new();
+    let mut bad: Option<String> = None;
+    let mut note = |m: String| {
+        if bad.is_none() {
+            bad = Some(m);
+        }
+    };
+    let want = reference::txid(&spec);
+    if tx.txid != want {
+        note(format!("txid {} != reference {}", hex::encode(tx.txid), hex::encode(want)));
+    }
+    map.insert(Dg::Txid, tx.txid);
+    if spec.ver.is_v5plus() {
+        let got = tx.auth.clone()?;
+        let want = reference::auth_digest(&spec);
+        if got != want {
+            note(format!("auth_commitment {} != reference {}", hex::encode(got), hex::encode(want)));
+        }
+        map.insert(Dg::Auth, got);
+    }
+    if spec.ver.overwintered() {
+        let mut signings = vec![Signing::Shielded];
+        for index in 0..coins.len() {
+            for hash_type in VALID_HASH_TYPES {
+                signings.push(Signing::Transparent { index, hash_type });
+            }
+        }
+        for sg in signings {
+            let got = tx.sighash(sg, coins).map_err(|e| format!("{sg:?}: {e}"))?;
+            let want = reference::sighash(&spec, sg, coins).ok_or("HARNESS: reference sighash undefined")?;
+            if got != want {
+                note(format!("signature hash {sg:?}: {} != reference {}", hex::encode(got), hex::encode(want)));
+            }
+            map.insert(Dg::Sig(sg), got);
+        }
+        // the hash type and the input index are committed: all signature hashes are distinct
+        let mut seen = BTreeMap::new();
+        for (k, v) in &map {
+            if let Dg::Sig(_) = k {
+                if let Some(prev) = seen.insert(*v, *k) {
+                    note(format!("signature hashes for {prev:?} and {k:?} coincide"));
+                }
+            }
+        }
+    }
+    Ok((Digests { map }, bad))
+}
+
+/// Oracle 1 on one transaction: every digest of the real code equals the reference.
+pub fn digests(bytes: &[u8], ext_branch: u32, coins: &[Coin]) -> Result<Digests, String> {
+    match digests_both(bytes, ext_branch, coins)? {
+        (d, None) => Ok(d),
+        (_, Some(m)) => Err(m),
+    }
+}
+
+/// Oracle 2 on one (base, single-field mutant) pair.
+pub fn compare(ver: Ver, class: Class, vin: usize, vout: usize, d0: &Digests, d1: &Digests) -> Result<String, String> {
+    let mut changed = Vec::new();
+    for (k, v0) in &d0.map {
+        let v1 = d1.map.get(k).ok_or_else(|| format!("HARNESS: digest {k:?} missing after mutation"))?;
+        let ch = v0 != v1;
+        let want = must_change(ver, class, *k, vin, vout);
+        if ch != want {
+            return Err(format!("{class:?} mutation: digest {k:?} {} but must {}", if ch { "changed" } else { "did not change" }, if want { "change" } else { "stay the same" }));
+        }
+        if ch {
+            changed.push(match k {
+                Dg::Txid => "txid",
+                Dg::Auth => "auth",
+                Dg::Sig(Signing::Shielded) => "sigS",
+                Dg::Sig(_) => "sigT",
+            });
+        }
+    }
+    changed.dedup();
+    Ok(format!("changes:{}", if changed.is_empty() { "none".into() } else { changed.join("+") }))
+}
+
+struct Mutation {
+    name: String,
+    class: Class,
+    bytes: Vec<u8>,
+    ext_branch: u32,
+    coins: Vec<Coin>,
+}
+
+fn flip(cur: &[u8], at: usize) -> Vec<u8> {
+    let mut v = cur.to_vec();
+    v[at] ^= 1;
+    v
+}
+
+fn other32(v: &[[u8; 32]], cur: &[u8]) -> Vec<u8> {
+    v.iter().find(|x| x.as_slice() != cur).expect("pool").to_vec()
+}
+
+/// Every single-field mutation of `spec` (all must still parse).
+fn mutations(spec: &TxSpec, coins: &[Coin]) -> Vec<Mutation> {
+    let w = ref_write(spec);
+    let enc = &w.buf;
+    let p = pool();
+    let mut out: Vec<Mutation> = Vec::new();
+    let mut add = |name: String, class: Class, bytes: Vec<u8>, ext_branch: u32, coins: Vec<Coin>| out.push(Mutation { name, class, bytes, ext_branch, coins });
+    let splice = |sp: &Span, new: &[u8]| -> Vec<u8> {
+        let mut v = enc[..sp.off].to_vec();
+        v.extend_from_slice(new);
+        v.extend_from_slice(&enc[sp.off + sp.len..]);
+        v
+    };
+    for sp in &w.spans {
+        let cur = &enc[sp.off..sp.off + sp.len];
+        let u32p = |d: u32| (u32::from_le_bytes(cur.try_into().unwrap()) ^ d).to_le_bytes().to_vec();
+        let i64p = || {
+            let v = i64::from_le_bytes(cur.try_into().unwrap());
+            (if v >= MAX_MONEY { v - 1 } else { v + 1 }).to_le_bytes().to_vec()
+        };
+        let ends = |n: usize| if n > 1 { vec![0, n - 1] } else if n == 1 { vec![0] } else { vec![] };
+        let variants: Vec<(String, Class, Vec<u8>)> = match sp.f {
+            F::LockTime | F::Expiry => vec![("^1".into(), Class::Header, u32p(1)), ("^80000000".into(), Class::Header, u32p(1 << 31))],
+            F::Branch => BRANCHES[6..].iter().filter(|(_, b)| *b != spec.branch).map(|(n, b)| (format!("={n}"), Class::Branch, b.to_le_bytes().to_vec())).collect(),
+            F::InHash(i) => vec![("alt".into(), Class::Prevout(i), fill32("alt-prevout", i).to_vec()), ("flip31".into(), Class::Prevout(i), flip(cur, 31))],
+            F::InIndex(i) => vec![("^1".into(), Class::Prevout(i), u32p(1))],
+            F::InSeq(i) => vec![("^1".into(), Class::Sequence(i), u32p(1))],
+            F::InScript(i) => ends(sp.len).into_iter().map(|a| (format!("flip{a}"), Class::ScriptSig(i), flip(cur, a))).collect(),
+            F::OutValue(k) => vec![("+1".into(), Class::Output(k), i64p())],
+            F::OutScript(k) => ends(sp.len).into_iter().map(|a| (format!("flip{a}"), Class::Output(k), flip(cur, a))).collect(),
+            // v4 encodes valueBalance even without Sapling spends/outputs, where it must be zero
+            F::SapVb if spec.has_sapling_bundle() => vec![("+1".into(), Class::SapVb, i64p())],
+            F::SpCv(_) => vec![("pool".into(), Class::SapSpendEffect, other32(&p.sap_cv, cur))],
+            F::SpRk(_) => vec![("pool".into(), Class::SapSpendEffect, other32(&p.sap_rk, cur))],
+            F::SpNf(_) => ends(32).into_iter().map(|a| (format!("flip{a}"), Class::SapSpendEffect, flip(cur, a))).collect(),
+            F::SpAnchor(_) => vec![("pool".into(), Class::SapAnchor, other32(&p.sap_anchor, cur))],
+            F::SpProof(_) => ends(192).into_iter().map(|a| (format!("flip{a}"), Class::SapSpendProof, flip(cur, a))).collect(),
+            F::SpSig(_) => ends(64).into_iter().map(|a| (format!("flip{a}"), Class::SapSpendSig, flip(cur, a))).collect(),
+            F::SoCv(_) => vec![("pool".into(), Class::SapOutEffect, other32(&p.sap_cv, cur))],
+            F::SoCmu(_) => vec![("pool".into(), Class::SapOutEffect, other32(&p.sap_cmu, cur))],
+            F::SoEpk(_) => vec![("pool".into(), Class::SapOutEffect, other32(&p.sap_epk, cur))],
+            F::SoEnc(_) => [0usize, 51, 52, 563, 564, 579].into_iter().map(|a| (format!("flip{a}"), Class::SapOutEffect, flip(cur, a))).collect(),
+            F::SoOut(_) => ends(80).into_iter().map(|a| (format!("flip{a}"), Class::SapOutEffect, flip(cur, a))).collect(),
+            F::SoProof(_) => ends(192).into_iter().map(|a| (format!("flip{a}"), Class::SapOutProof, flip(cur, a))).collect(),
+            F::SapBsig => ends(64).into_iter().map(|a| (format!("flip{a}"), Class::SapBsig, flip(cur, a))).collect(),
+            F::OCv(..) => vec![("pool".into(), Class::OrchEffect, other32(&p.orch_cv, cur))],
+            F::ONf(..) => vec![("pool".into(), Class::OrchEffect, other32(&p.orch_nf, cur))],
+            F::ORk(..) => vec![("pool".into(), Class::OrchEffect, other32(&p.orch_rk, cur))],
+            F::OCmx(..) => vec![("pool".into(), Class::OrchEffect, other32(&p.orch_cmx, cur))],
+            F::OEpk(..) => vec![("pool".into(), Class::OrchEffect, other32(&p.orch_epk, cur))],
+            F::OEnc(..) => [0usize, 51, 52, 563, 564, 579].into_iter().map(|a| (format!("flip{a}"), Class::OrchEffect, flip(cur, a))).collect(),
+            F::OOut(..) => ends(80).into_iter().map(|a| (format!("flip{a}"), Class::OrchEffect, flip(cur, a))).collect(),
+            F::OFlags(pl) => {
+                let mut v = vec![("^1".to_string(), Class::OrchEffect, vec![cur[0] ^ 1]), ("^2".to_string(), Class::OrchEffect, vec![cur[0] ^ 2])];
+                if pl == 1 {
+                    v.push(("^4".into(), Class::OrchEffect, vec![cur[0] ^ 4]));
+                }
+                v
+            }
+            F::OVb(_) => vec![("+1".into(), Class::OrchEffect, i64p())],
+            F::OAnchor(_) => vec![("pool".into(), Class::OrchAnchor, other32(&p.orch_anchor, cur))],
+            F::OProof(_) => ends(sp.len).into_iter().map(|a| (format!("flip{a}"), Class::OrchAuth, flip(cur, a))).collect(),
+            F::OSig(..) => ends(64).into_iter().map(|a| (format!("flip{a}"), Class::OrchAuth, flip(cur, a))).collect(),
+            F::OBsig(_) => ends(64).into_iter().map(|a| (format!("flip{a}"), Class::OrchAuth, flip(cur, a))).collect(),
+            // structure-defining fields (version words, counts, lengths) are not single-field mutable
+            _ => vec![],
+        };
+        for (suffix, class, new) in variants {
+            add(format!("{:?}{suffix}", sp.f), class, splice(sp, &new), spec.branch, coins.to_vec());
+        }
+    }
+    // length-changing script mutations (through the plain-data description)
+    for i in 0..spec.vin.len() {
+        let mut s = spec.clone();
+        s.vin[i].script_sig.push(0x51);
+        add(format!("InScript({i})+len"), Class::ScriptSig(i), ref_write(&s).buf, spec.branch, coins.to_vec());
+    }
+    for k in 0..spec.vout.len() {
+        let mut s = spec.clone();
+        s.vout[k].script.push(0x51);
+        add(format!("OutScript({k})+len"), Class::Output(k), ref_write(&s).buf, spec.branch, coins.to_vec());
+    }
+    // the branch of pre-v5 transactions is not encoded: it is the caller's parameter
+    if !spec.ver.is_v5plus() {
+        let alt = if spec.ver == Ver::V3 { 0x76b8_09bb } else if spec.branch == 0xe9ff_75a6 { 0xf5b9_230b } else { 0xe9ff_75a6 };
+        add("Branch(ext)".into(), Class::Branch, enc.clone(), alt, coins.to_vec());
+    }
+    // spent coins
+    for j in 0..coins.len() {
+        let mut c = coins.to_vec();
+        c[j].value += 1;
+        add(format!("CoinValue({j})+1"), Class::CoinValue(j), enc.clone(), spec.branch, c);
+        let mut c = coins.to_vec();
+        c[j].script[0] ^= 1;
+        add(format!("CoinScript({j})flip0"), Class::CoinScript(j), enc.clone(), spec.branch, c);
+        let mut c = coins.to_vec();
+        c[j].script.push(0x51);
+        add(format!("CoinScript({j})+len"), Class::CoinScript(j), enc.clone(), spec.branch, c);
+    }
+    out
+}
+
+fn coins_json(c: &[Coin]) -> Value {
+    json!(c.iter().map(|c| json!([c.value, hex::encode(&c.script)])).collect::<Vec<_>>())
+}
+
+fn coins_from(v: &Value) -> Vec<Coin> {
+    v.as_array().map(|a| a.iter().map(|c| Coin { value: c[0].as_i64().unwrap_or(0), script: hex::decode(c[1].as_str().unwrap_or("")).unwrap_or_default() }).collect()).unwrap_or_default()
+}
+
+fn class_from(s: &str) -> Option<Class> {
+    use Class::*;
+    let mut all = vec![Header, Branch, SapSpendEffect, SapAnchor, SapSpendProof, SapSpendSig, SapOutEffect, SapOutProof, SapVb, SapBsig, OrchEffect, OrchAnchor, OrchAuth];
+    for i in 0..8 {
+        all.extend([Prevout(i), Sequence(i), ScriptSig(i), Output(i), CoinValue(i), CoinScript(i)]);
+    }
+    all.into_iter().find(|c| format!("{c:?}") == s)
+}
+
+/// Decide one mutation case from scratch (the commitment matrix on base and mutant; oracle 1 on
+/// either transaction is a separate `eq` case).
+fn check_pair(base: &[u8], branch: u32, coins: &[Coin], mbytes: &[u8], mbranch: u32, mcoins: &[Coin], class: Class) -> Result<String, String> {
+    let d0 = digests_both(base, branch, coins)?.0;
+    let d1 = digests_both(mbytes, mbranch, mcoins)?.0;
+    let s = ref_parse(base, branch).map_err(|e| format!("HARNESS: {e}"))?.spec;
+    compare(s.ver, class, s.vin.len(), s.vout.len(), &d0, &d1)
+}
+
+fn check_vector(kind: &str, i: usize) -> Result<String, String> {
+    use zcash_primitives::transaction::tests::data;
+    match kind {
+        "zip143" | "zip243" => {
+            let (tx, script_code, input, hash_type, amount, branch, want) = if kind == "zip143" {
+                let v = data::zip_0143::make_test_vectors().into_iter().nth(i).ok_or("no such vector")?;
+                (v.tx, v.script_code.0 .0, v.transparent_input, v.hash_type, v.amount, u32::from(v.consensus_branch_id), v.sighash)
+            } else {
+                let v = data::zip_0243::make_test_vectors().into_iter().nth(i).ok_or("no such vector")?;
+                (v.tx, v.script_code.0 .0, v.transparent_input, v.hash_type, v.amount, u32::from(v.consensus_branch_id), v.sighash)
+            };
+            let spec = ref_parse(&tx, branch).map_err(|e| format!("HARNESS: {e}"))?.spec;
+            let mut coins: Vec<Coin> = (0..spec.vin.len()).map(|_| Coin { value: 0, script: vec![] }).collect();
+            let sg = match input {
+                Some(n) => {
+                    coins[n as usize] = Coin { value: amount, script: script_code };
+                    Signing::Transparent { index: n as usize, hash_type: hash_type as u8 }
+                }
+                None => Signing::Shielded,
+            };
+            let got = reference::sighash(&spec, sg, &coins).ok_or("undefined")?;
+            if got != want {
+                return Err(format!("REFERENCE: {kind}[{i}] sighash {} != published {}", hex::encode(got), hex::encode(want)));
+            }
+            if reference::txid(&spec) != crate::c03::real::sha256d(&tx) {
+                return Err("REFERENCE: txid".into());
+            }
+            // and the real code against the reference on the same inputs
+            let tx_real = real::load(&tx, branch, &coins)?;
+            if tx_real.txid != reference::txid(&spec) {
+                return Err(format!("{kind}[{i}]: txid != sha256d(serialisation)"));
+            }
+            if tx_real.sighash(sg, &coins)? != got {
+                return Err(format!("{kind}[{i}]: signature hash differs from the reference"));
+            }
+            Ok("vector".into())
+        }
+        "zip244" => {
+            let v = data::zip_0244::make_test_vectors().into_iter().nth(i).ok_or("no such vector")?;
+            let spec = ref_parse(&v.tx, 0xc2d6_d0b4).map_err(|e| format!("HARNESS: {e}"))?.spec;
+            let coins: Vec<Coin> = v.amounts.iter().zip(&v.script_pubkeys).map(|(a, s)| Coin { value: *a, script: s.clone() }).collect();
+            if reference::txid(&spec) != v.txid {
+                return Err(format!("REFERENCE: zip244[{i}] txid"));
+            }
+            if reference::auth_digest(&spec) != v.auth_digest {
+                return Err(format!("REFERENCE: zip244[{i}] auth digest"));
+            }
+            if reference::sighash(&spec, Signing::Shielded, &coins) != Some(v.sighash_shielded) {
+                return Err(format!("REFERENCE: zip244[{i}] shielded sighash"));
+            }
+            if let Some(n) = v.transparent_input {
+                for (ht, want) in [(1u8, v.sighash_all), (2, v.sighash_none), (3, v.sighash_single), (0x81, v.sighash_all_anyone), (0x82, v.sighash_none_anyone), (0x83, v.sighash_single_anyone)] {
+                    if let Some(want) = want {
+                        if reference::sighash(&spec, Signing::Transparent { index: n as usize, hash_type: ht }, &coins) != Some(want) {
+                            return Err(format!("REFERENCE: zip244[{i}] sighash type {ht:#x}"));
+                        }
+                    }
+                }
+            }
+            digests(&v.tx, 0xc2d6_d0b4, &coins).map(|_| "vector".into())
+        }
+        _ => Err("unknown vector kind".into()),
+    }
+}
+
+fn check_hash_type(t: u8) -> Result<String, String> {
+    match (real::sighash_type_parse(t), reference::hash_type_valid(t)) {
+        (Some(e), true) if e == t => Ok("hashtype:valid".into()),
+        (None, false) => Ok("hashtype:refused".into()),
+        (g, w) => Err(format!("SighashType::parse({t:#04x}) -> {g:?}, ZIP 244 S.2a says valid={w}")),
+    }
+}
+
+pub fn replay(kind: &str, case: &Value) -> Result<(), String> {
+    let hexb = |k: &str| hex::decode(case[k].as_str().unwrap_or("")).map_err(|e| e.to_string());
+    let br = |k: &str| case[k].as_u64().unwrap_or(0) as u32;
+    match kind {
+        "eq" => digests(&hexb("hex")?, br("branch"), &coins_from(&case["coins"])).map(|_| ()),
+        "matrix" => check_pair(
+            &hexb("base")?,
+            br("branch"),
+            &coins_from(&case["coins"]),
+            &hexb("mut")?,
+            br("mut_branch"),
+            &coins_from(&case["mut_coins"]),
+            class_from(case["class"].as_str().unwrap_or("")).ok_or("bad class")?,
+        )
+        .map(|_| ()),
+        "vector" => check_vector(case["set"].as_str().unwrap_or(""), case["i"].as_u64().unwrap_or(0) as usize).map(|_| ()),
+        "hashtype" => check_hash_type(case["t"].as_u64().unwrap_or(0) as u8).map(|_| ()),
+        _ => Err(format!("unknown kind {kind}")),
+    }
+}
+
+pub fn run(args: &Args) -> i32 {
+    let run = Run::new(args, "exploration");
+    let thorough = args.tier == Tier::Thorough;
+    let demo_matrix_only = std::env::var("VERIF_C04_ORACLE").map_or(false, |v| v == "matrix");
+    run.set_rule(
+        "for v3, v4, v5 and v6 transactions of the C03 count lattice {0,1,2}^k (quick: v3, v4@Canopy/Sapling, v5@NU5/NU6.3, v6 on the sub-lattices {0,1}^k, {0,2}^k \
+         and all transparent shapes with the shielded part <= 1; thorough: every overwintered (version, branch) pair on the full lattice plus 3 inputs/outputs): oracle 1 on the base (txid, auth commitment, shielded \
+         signature hash, every transparent input x the 6 valid hash types, against the reference implementation); then every single-field mutation \
+         (each scalar header field, the branch id, per input prevout hash/index/scriptSig/sequence, per output value/script, every Sapling spend and \
+         output field incl. enc_ciphertext at offsets {0,51,52,563,564,579}, every Orchard/Ironwood action field, flags, value balances, anchors, \
+         proofs, signatures, and the value/script of every spent coin), oracle 1 again on the mutant and the commitment matrix on every digest. A \
+         case is distinct by (transaction, field position, variant); non-trivial because the mutant differs from the base in exactly one field",
+    );
+    run.assume("the reference implementation is trusted after reproducing every published ZIP 143 / 243 / 244 vector (checked at the start of each run)");
+    run.assume("v6 digests have no external vectors: the reference follows the documented structure in txid.rs / sighash_v6.rs / the orchard crate's commitment docs");
+    run.assume("SIGHASH_SINGLE with input index >= vout.len(): ZIP 244 S.2e defines outputs_sig_digest as the hash of the empty string (ZIP 143/243: 32 zero bytes); the digest is compared, the consensus rule that such signatures are invalid is out of scope");
+    run.assume("BLAKE2b/SHA-256 are treated as injective: 'must change' is checked on one replacement value per field position");
+    run.assume("v1/v2 (pre-Overwinter) transactions have no signature hash in this code base (documented panic); only txid == sha256d(serialisation) is checked for them");
+
+    // ---- reference validation + vectors ------------------------------------------------------
+    use zcash_primitives::transaction::tests::data;
+    let sets = [("zip143", data::zip_0143::make_test_vectors().len()), ("zip243", data::zip_0243::make_test_vectors().len()), ("zip244", data::zip_0244::make_test_vectors().len())];
+    let mut n_vec = 0;
+    for (set, n) in sets {
+        for i in 0..n {
+            n_vec += 1;
+            run.eval(format!("vector:{set}:{i}").as_bytes());
+            match check_vector(set, i) {
+                Ok(o) => run.outcome(&o),
+                Err(m) if m.starts_with("REFERENCE") || m.starts_with("HARNESS") => mc_core::machinery_error(&format!("C04: reference implementation fails a published vector: {m}")),
+                Err(_) if demo_matrix_only => {}
+                Err(m) => run.fail("vector", format!("vector:{set}[{i}]"), m, json!({"set": set, "i": i})),
+            }
+        }
+    }
+    run.section("vectors_reproduced_by_reference", json!(n_vec));
+
+    // ---- hash types -----------------------------------------------------------------------------
+    for t in 0..=255u8 {
+        run.eval(format!("hashtype:{t}").as_bytes());
+        match check_hash_type(t) {
+            Ok(o) => run.outcome(&o),
+            Err(m) => run.fail("hashtype", format!("hashtype:{t:#04x}"), m, json!({"t": t})),
+        }
+    }
+
+    // ---- lattice x field positions ------------------------------------------------------------
+    let pairs: Vec<(Ver, u32)> = if thorough {
+        crate::c03::gen::pairs().into_iter().filter(|(v, _)| v.overwintered()).collect()
+    } else {
+        vec![(Ver::V3, 0x5ba8_1b19), (Ver::V4, 0xe9ff_75a6), (Ver::V4, 0x76b8_09bb), (Ver::V5, 0xc2d6_d0b4), (Ver::V5, 0x37a5_165b), (Ver::V6, 0x37a5_165b)]
+    };
+    let mut bases: Vec<(Ver, u32, Shape)> = Vec::new();
+    for (ver, branch) in &pairs {
+        for sh in count_lattice(*ver, 2) {
+            let counts = [sh.vin, sh.vout, sh.spends, sh.outputs, sh.orchard, sh.ironwood];
+            let twos = counts.iter().filter(|c| **c == 2).count();
+            // quick: shapes over {0,1}, shapes over {0,2}, and every transparent shape with the
+            // shielded part all-ones (input index / SINGLE boundaries)
+            let shielded_ones = [sh.spends, sh.outputs, sh.orchard, sh.ironwood].iter().all(|c| *c <= 1);
+            if thorough || twos == 0 || counts.iter().all(|c| *c == 2 || *c == 0) || shielded_ones {
+                bases.push((*ver, *branch, sh));
+            }
+        }
+        // thorough: three transparent inputs / outputs (index and SINGLE boundaries one further out)
+        if thorough && matches!((*ver, *branch), (Ver::V4, 0xe9ff_75a6) | (Ver::V5, 0xc2d6_d0b4) | (Ver::V6, 0x37a5_165b)) {
+            for sh in count_lattice(*ver, 3) {
+                if (sh.vin == 3 || sh.vout == 3) && [sh.spends, sh.outputs, sh.orchard, sh.ironwood].iter().all(|c| *c <= 1) {
+                    bases.push((*ver, *branch, sh));
+                }
+            }
+        }
+        // distinct per-spend anchors (v4), other flag bytes
+        if *ver == Ver::V4 {
+            bases.push((*ver, *branch, Shape { distinct_anchors: true, ..Shape::base(1, 1, 2, 1, 0, 0) }));
+        }
+        if ver.has_orchard() {
+            bases.push((*ver, *branch, Shape { orchard_flags: 0, ironwood_flags: 0, ..Shape::base(1, 1, 1, 1, 1, 1) }));
+        }
+    }
+    // txid == sha256d for v1/v2 and every v4 branch (oracle 1 only)
+    let mut eq_only: Vec<(Ver, u32, Shape)> = Vec::new();
+    for (ver, branch) in crate::c03::gen::pairs() {
+        if matches!(ver, Ver::Sprout(_)) || (ver == Ver::V4 && !pairs.contains(&(ver, branch))) || (ver == Ver::V5 && !pairs.contains(&(ver, branch))) {
+            for sh in count_lattice(ver, if thorough { 2 } else { 1 }) {
+                eq_only.push((ver, branch, sh));
+            }
+        }
+    }
+    // oracle 1 on the scalar / boundary shapes of C03 (lock_time x expiry, value lattices, script
+    // lengths and counts at 252/253, flag bytes, free proof lengths) for every pair
+    for (ver, branch) in crate::c03::gen::pairs() {
+        for sh in scalar_shapes(ver, branch, false) {
+            eq_only.push((ver, branch, sh));
+        }
+    }
+    run.section("bases", json!({"matrix": bases.len(), "equality_only": eq_only.len()}));
+    // development aid for detection demos: VERIF_C04_ORACLE=matrix keeps only commitment-matrix
+    // failures (oracle 1 failures otherwise fill the failure list first)
+    let matrix_only = demo_matrix_only;
+    let cap = args.tier.pick(45.0, 480.0);
+    let skipped = std::sync::atomic::AtomicUsize::new(0);
+    let max_fields = std::sync::atomic::AtomicUsize::new(0);
+
+    eq_only.par_iter().for_each(|(ver, branch, sh)| {
+        let spec = make_spec(*ver, *branch, sh);
+        let enc = ref_write(&spec).buf;
+        let coins = coins_for(spec.vin.len());
+        let id = format!("{}@{}/{}", ver.name(), branch_name(*branch), sh.id());
+        run.eval(format!("eq:{id}").as_bytes());
+        match digests(&enc, *branch, &coins) {
+            Ok(d) => run.outcome(&format!("equal:{}digests", if d.map.len() > 1 { "n-" } else { "1-" })),
+            Err(_) if demo_matrix_only => {}
+            Err(m) => run.fail("eq", format!("eq:{id}"), m, json!({"hex": hex::encode(&enc), "branch": branch, "coins": coins_json(&coins)})),
+        }
+    });
+
+    bases.par_iter().for_each(|(ver, branch, sh)| {
+        if run.elapsed() > cap {
+            skipped.fetch_add(1, std::sync::atomic::Ordering::Relaxed);
+            return;
+        }
+        let spec = make_spec(*ver, *branch, sh);
+        let enc = ref_write(&spec).buf;
+        let coins = coins_for(spec.vin.len());
+        let id = format!("{}@{}/{}", ver.name(), branch_name(*branch), sh.id());
+        run.eval(format!("eq:{id}").as_bytes());
+        let d0 = match digests_both(&enc, *branch, &coins) {
+            Ok((d, bad)) => {
+                if let (Some(m), false) = (bad, matrix_only) {
+                    run.fail("eq", format!("eq:{id}"), m, json!({"hex": hex::encode(&enc), "branch": branch, "coins": coins_json(&coins)}));
+                }
+                d
+            }
+            Err(m) => {
+                run.fail("eq", format!("eq:{id}"), m, json!({"hex": hex::encode(&enc), "branch": branch, "coins": coins_json(&coins)}));
+                return;
+            }
+        };
+        let muts = mutations(&spec, &coins);
+        max_fields.fetch_max(muts.len(), std::sync::atomic::Ordering::Relaxed);
+        let mut outcomes: BTreeMap<String, u64> = BTreeMap::new();
+        let mut n = 0u64;
+        for m in &muts {
+            // a mutation that no longer parses (branch ids that forbid the bundles present) is not a case
+            if m.class == Class::Branch && real::load(&m.bytes, m.ext_branch, &m.coins).is_err() {
+                *outcomes.entry("branch-variant-not-parseable".into()).or_insert(0) += 1;
+                continue;
+            }
+            n += 1;
+            let eq_case = || json!({"hex": hex::encode(&m.bytes), "branch": m.ext_branch, "coins": coins_json(&m.coins)});
+            let d1 = match digests_both(&m.bytes, m.ext_branch, &m.coins) {
+                Ok((d, bad)) => {
+                    if let (Some(msg), false) = (bad, matrix_only) {
+                        run.fail("eq", format!("eq:{id}:{}", m.name), msg, eq_case());
+                    }
+                    d
+                }
+                Err(msg) => {
+                    run.fail("eq", format!("eq:{id}:{}", m.name), msg, eq_case());
+                    continue;
+                }
+            };
+            match compare(*ver, m.class, spec.vin.len(), spec.vout.len(), &d0, &d1) {
+                Ok(o) => *outcomes.entry(format!("{}:{o}", ver.name())).or_insert(0) += 1,
+                Err(msg) => run.fail(
+                    "matrix",
+                    format!("{id}:{}", m.name),
+                    msg,
+                    json!({"base": hex::encode(&enc), "branch": branch, "coins": coins_json(&coins), "mut": hex::encode(&m.bytes), "mut_branch": m.ext_branch, "mut_coins": coins_json(&m.coins), "class": format!("{:?}", m.class)}),
+                ),
+            }
+        }
+        run.eval_distinct(n);
+        for (o, k) in outcomes {
+            run.outcome_n(&o, k);
+        }
+    });
+    let sk = skipped.load(std::sync::atomic::Ordering::Relaxed);
+    if sk > 0 {
+        run.cap_hit(&format!("wall cap {cap}s: {sk}/{} bases skipped", bases.len()));
+    }
+    run.section("max_field_positions_per_transaction", json!(max_fields.load(std::sync::atomic::Ordering::Relaxed)));
+    run.sample(json!({"base": "v5@Nu5/in1,out1,sp1,so1,or1,ir0", "mutation": "OAnchor(0)pool", "expected": "txid and every signature hash change, auth commitment does not"}));
+    run.sample(json!({"base": "v6@Nu6_3/in1,out1,sp1,so1,or1,ir1", "mutation": "OAnchor(1)pool", "expected": "only the auth commitment changes"}));
+    run.sample(json!({"base": "v5@Nu5/in2,out1,..", "mutation": "CoinValue(1)+1", "expected": "signature hashes change except ANYONECANPAY ones of input 0; txid, auth unchanged"}));
+    run.sample(json!({"base": "v4@Canopy/in2,out2,..", "mutation": "InSeq(1)^1", "expected": "txid; sighash ALL of every input; every sighash of input 1; not NONE/SINGLE/ANYONECANPAY of input 0"}));
+    run.require(run.outcomes_distinct() >= 10 || run.failure_count() > 0, "fewer than 10 distinct outcome classes");
+    run.finish(&replay)
 }
